@@ -44,7 +44,7 @@ def frames(prop):
     # -- engine status: written only at the stabilise boundaries, never on an unwind path -----------------
     add({'C13', 'C07', 'C19'}, lambda: F.only_in(
         'frame/status-written-only-by-stabilise_start-and-stabilise_end', r'\bstatus\s*\.\s*(set|replace|swap)\(',
-        {'stabilise_start', 'stabilise_end'}, SRC, min_hits=3))
+        {'stabilise_start', 'stabilise_end'}, SRC, min_hits=1))
     add({'C13'}, lambda: F.absent('frame/no-catch_unwind-in-the-crate', r'\bcatch_unwind\b', SRC))
     add({'C13', 'C19', 'C07', 'C05'}, lambda: F.in_order(
         'frame/stabilise-asserts-not-stabilising-then-start-then-recompute-loop-then-end', 'src/state.rs', 'stabilise_debug',
@@ -73,12 +73,12 @@ def frames(prop):
         {'add_new_observers'}, SRC, min_hits=1))
     add({'C10'}, lambda: F.only_in(
         'frame/observers-become-Unlinked-only-in-disallow_future_use-and-unlink_disallowed_observers',
-        r'\.set\(\s*(ObserverState::)?Unlinked\s*\)', {'disallow_future_use', 'unlink_disallowed_observers'}, SRC, min_hits=2))
+        r'\.set\(\s*(ObserverState::)?Unlinked\s*\)', {'disallow_future_use', 'unlink_disallowed_observers'}, SRC, min_hits=1))
     add({'C10'}, lambda: F.only_in(
         'frame/all_observers-borrowed-mutably-only-to-link-unlink-or-destroy', r'\ball_observers\s*\.\s*(borrow_mut|replace|take|swap)\(',
-        {'add_new_observers', 'unlink_disallowed_observers', 'destroy', 'drop'}, ST, min_hits=2))
+        {'add_new_observers', 'unlink_disallowed_observers', 'destroy', 'drop'}, ST, min_hits=1))
     add({'C10', 'C05', 'C07'}, lambda: F.only_in(
-        'frame/clone-sentinel-touched-only-by-new-and-drop', r'\bsentinel\b', {'new', 'drop', None}, ['src/public.rs'], min_hits=4, strict=True))
+        'frame/clone-sentinel-touched-only-by-new-and-drop', r'\bsentinel\b', {'new', 'drop', None}, ['src/public.rs'], min_hits=4, strict=True, vanished_is_violation=True))
 
     # what is done per observer is under contract (unit steps, rule R7h); the iteration itself is not: pinned here, and a
     # different way of iterating is undecided, not an alarm
@@ -112,7 +112,7 @@ def frames(prop):
         'frame/handlers-run-only-from-stabilise_end', r'\.run_on_update_handlers\(', {'stabilise_end'}, SRC, min_hits=1))
     add({'C09'}, lambda: F.only_in(
         'frame/handler.run-called-only-by-the-two-delivery-loops', r'\b(?!span\b|\w*_span\b)\w+\s*\.\s*run\(\s*\w+\s*,\s*\w+\s*,\s*\w+\s*\)', {'run_all', 'run_on_update_handlers'},
-        ['src/node.rs', 'src/internal_observer.rs', 'src/state.rs', 'src/public.rs', 'src/incr.rs'], min_hits=2))
+        ['src/node.rs', 'src/internal_observer.rs', 'src/state.rs', 'src/public.rs', 'src/incr.rs'], min_hits=1))
     add({'C09'}, lambda: F.in_order(
         'frame/try_subscribe-maps-Necessary-to-Initialised', 'src/public.rs', 'try_subscribe',
         [r'NodeUpdate::Necessary\((\w+)\)\s*=>\s*Update::Initialised\(\1\)', r'NodeUpdate::Changed\((\w+)\)\s*=>\s*Update::Changed\(\1\)',
@@ -122,13 +122,13 @@ def frames(prop):
     # -- node values and stamps ------------------------------------------------------------------------------
     add({'C07'}, lambda: F.only_in(
         'frame/node-values-written-only-while-recomputing-or-invalidating', r'\bvalue_opt\s*\.\s*(replace|take|borrow_mut|swap|set)\(',
-        {'recompute_one', 'maybe_change_value', 'invalidate_node'}, SRC, min_hits=5))
+        {'recompute_one', 'maybe_change_value', 'invalidate_node'}, SRC, min_hits=1))
     add({'C06', 'C09'}, lambda: F.only_in(
         'frame/changed_at-written-only-on-change-or-invalidation', r'\bchanged_at\s*\.\s*(set|replace)\(',
-        {'recompute_one', 'invalidate_node', 'maybe_change_value_manual'}, SRC, min_hits=3))
+        {'recompute_one', 'invalidate_node', 'maybe_change_value_manual'}, SRC, min_hits=1))
     add({'C06'}, lambda: F.only_in(
         'frame/recomputed_at-written-only-when-recomputing-or-invalidating', r'\brecomputed_at\s*\.\s*(set|replace)\(',
-        {'recompute_one', 'invalidate_node'}, SRC, min_hits=2))
+        {'recompute_one', 'invalidate_node'}, SRC, min_hits=1))
     add({'C06'}, lambda: F.in_order(
         'frame/bind-lhs-change-never-cuts-off', 'src/incr.rs', 'bind',
         [r'set_cutoff\(&\*lhs_change,\s*Cutoff::Never\)'], impl=None))
@@ -237,6 +237,6 @@ def frames(prop):
     # -- only needed nodes are scheduled -------------------------------------------------------------------
     add({'C05'}, lambda: F.each_guarded(
         'frame/every-recompute_heap.insert-is-dominated-by-a-necessity-test-or-assertion', r'recompute_heap\s*\.\s*insert\(',
-        [r'is_necessary\(\)', r'needs_to_be_computed\(\)'], ['src/node.rs', 'src/state.rs', 'src/var.rs'], window=30, min_hits=5))
+        [r'is_necessary\(\)', r'needs_to_be_computed\(\)'], ['src/node.rs', 'src/state.rs', 'src/var.rs'], window=30, min_hits=1))
     add({'C06'}, _bind_main_cutoff_type)
     return fs
